@@ -56,6 +56,10 @@ def programs():
                     + common + ' } } catch (outofspace) { s = "z"; h(); } } }\n', argv=[], alphabet=list(b"dgojt"), sentinels={"z1": 165}, uses_oob_index=True))
     out.append(dict(label="STR-afterloop-delete", src='out str[3] s = "ab"; out int{unsigned, size 1} z1 = 165; out int{unsigned, size 1} n = 0; hook h; parser { loop { try { case { "k" -> { loop { /[xy]/; if $last == \'y\' { break; } } delete s; }'
                     + common + ' } } catch (outofspace) { s = "z"; h(); } } }\n', argv=[], alphabet=list(b"kygoj"), sentinels={"z1": 165}, uses_oob_index=True))
+    # reads of bytes that were written earlier and lie beyond the current length (defined as long as delete keeps the buffer)
+    out.append(dict(label="STR-stale-read", src='out str[4] t; out int{unsigned, size 1} z1 = 165; out int{unsigned, size 1} n = 0; out int{unsigned, size 1} m = 0; hook h; parser { loop { try { case { "f" -> { t = "xyz"; m = 1; } "d" -> { delete t; } '
+                    '"g" -> { if m == 1 { t += [68]; } } "j" -> { n = [t[2] + t[1]]; h(); } "i" -> { if t[2] == \'z\' { h(); } } } } catch (outofspace) { h(); t = "q"; } } }\n', argv=[], alphabet=list(b"fdgji"), sentinels={"z1": 165}, uses_oob_index=True,
+                    skip_rows_with=["-fdelete-string-free-memory", "-fallocate-str-space-dynamic"], storage_only=[[], ["-fstrings-as-u8"], ["-fallocate-str-space-dynamic-on-demand"]]))
     # in-range reads of a buffer that does not exist (yet / any more); only under storage modes where every byte read is defined
     out.append(dict(label="STR-nullread", src='out str[3] s; out int{unsigned, size 1} z1 = 165; out int n = 0; hook h; parser { loop { case { "r" -> { n = [s[0] + s[2] + s[5]]; h(); } "w" -> { s = "ab"; } "d" -> { delete s; } "i" -> { if s[1] == \'b\' { h(); } } } } }\n',
                     argv=[], alphabet=list(b"rwdi"), sentinels={"z1": 165}, uses_oob_index=True, storage_only=[[], ["-fallocate-str-space-dynamic-on-demand"], ["-fallocate-str-space-dynamic-on-demand", "-fdelete-string-free-memory"]]))
